@@ -127,6 +127,16 @@ pub fn run(ctx: &Ctx, model: &mut Model, rep: &mut Report) {
             }
         }
     }
+    // repaired defects: their witnesses run as ordinary corpus cases (a failure is a violation again)
+    for f in known::load(ctx, "C04").into_iter().filter(|f| f.status == "fixed") {
+        if let Some(h) = f.witness.get("history").and_then(hist::from_json) {
+            rep.evaluations += 1;
+            rep.count("corpus_fixed_witnesses");
+            if let Some((step, what, _)) = oracle(&h) {
+                rep.fail(json!({"kind": "incremental_vs_fresh", "history": hist::to_json(&h), "step": step, "what": format!("regression of repaired defect {}: {}", f.id, what)}));
+            }
+        }
+    }
     let d19_open = known::is_open(ctx, "C04", "D19");
     let n = if ctx.thorough { 6000 } else { 400 };
     for i in 0..n {
